@@ -627,6 +627,9 @@ def realise_scenario(scen):
 def plan_additions(uni, init, ops):
     """register the types of the fields a chain adds (the tables of the scenario's own fields exist already)"""
     for op in ops:
+        for tok in [f["tok"] for f in op["add"]] + list(op["vals"]):
+            if tok not in uni.tokens:
+                raise MachineryError("data token %r of an operation is not in the scenario's universe" % tok)
         for f in op["add"]:
             uni.table(f, list(init.shape) + list(f["sub"]))
 
@@ -839,7 +842,8 @@ def seeded_chain(rng):
             if rng.random() < 0.15:
                 newn[0] = rng.choice(have)
             dflt = rng.random() < 0.5
-            op.update(add=[_fld(nm, RT(), rng.choice(["d1", "d2", "d3", "d4", "d4", "d5", "d5", "H." + nm]) if dflt else "zero") for nm in newn],
+            op.update(add=[_fld(nm, RT(), rng.choice(["d1", "d2", "d3", "d4", "d4", "d5", "d5", _ARRAY_DEFAULTS[i]]) if dflt else "zero")
+                           for i, nm in enumerate(newn)],
                       form=rng.choice(["descr", "dtype", "descr_np"]))
         elif k == "combine":
             ids = rng.sample(["B", "C", "F"], rng.randrange(0, 4))
@@ -897,7 +901,7 @@ BOUNDS = {
               dict(Shapes={0, 1, 2}, NFields={10, 16, 17, 33, 40}, Rots={4}, MaxDepth=1, Names1=2, NamesN=1, LeanFrom=1, Forms1={"list"},
                    Marks={1, 2, 8, 9, 10, 16, 17, 32}),
               dict(Shapes={0, 1, 2}, NFields={65}, Rots={3}, MaxDepth=1, Names1=2, NamesN=1, LeanFrom=1, Forms1={"list"}, Marks={1, 8, 9, 33, 64})],
-        seeded=30000),
+        seeded=20000),
 }
 ACTIONS = ["Start", "Extract", "Remove", "Reorder", "Add", "Combine", "Copy", "CopyByName", "Split"]
 INVARIANTS = ["NamesDistinct", "ShapeInv", "StepLaws", "RejectLaws", "MechRefines", "RefAccepted", "BlockLaw"]
@@ -1045,12 +1049,15 @@ def run(ctx):
                 "names equal outer names, the name no array has, names of added fields and of fields of the other arrays -, the names spelt plainly / differing only in case and long / non-ASCII "
                 "(one spelling per scenario, pairwise covering); every ordered name selection of length <= %d incl. a missing name, strict and "
                 "not, names as list/tuple/ndarray/scalar; add-descriptors of <= 2 fields (also nested ones) with/without defaults, as descr and "
-                "dtype; lists of 1..4 arrays incl. shared name / other size; copy into, out of, unequal sizes; copy_by_name; split) and every "
+                "dtype, defaults also as numpy scalars / per-field arrays and of different kinds side by side (64-bit integers at the ends of "
+                "their range next to floats, text next to numbers); lists of 1..4 arrays incl. shared name / other size; copy into, out of, unequal sizes; copy_by_name; split) and every "
                 "chain of <= 3 operations over the chain alphabet (%d behaviours in all, exported from FieldOpsMC.tla), each replayed into the "
-                "real code; plus %d seeded chains of 2..6 operations over %d leaf types (also f2, c16, u1.., and - not gating - M8, m8, O), random "
-                "nested types of depth <= 2, %d shapes and the three spellings; counted: %d real calls, of which the "
+                "real code; the same operations on WIDE tables (%s fields; FieldOpsMC's BlockLaw: the algebra does not depend on the number "
+                "of fields) naming marked low / high positions in every order and all-but-one-or-two names; plus %d seeded chains of 2..6 operations over %d leaf types (also f2, c16, u1.., and - not gating - M8, m8, O), random "
+                "nested types of depth <= 2, %d shapes, the three spellings, one in ten a wide table of 9..65 fields; counted: %d real calls, of which the "
                 "distinct (input projection, operation, observation) steps are the distinct non-trivial cases" %
-                (sorted(S["NFields"]), len(S["Rots"]), S["Names1"], nbeh, nseed, len(_CAT), len(_SHAPES), steps.calls))
+                (sorted(S["NFields"]), len(S["Rots"]), S["Names1"], nbeh, sorted(set().union(*[w["NFields"] for w in B["wide"]])), nseed,
+                 len(_CAT), len(_SHAPES), steps.calls))
     ctx.exhaustive = True
     ctx.traces = ctx.traces                # steps accepted by TLC (counted by tracecheck)
     ctx.note(bounds={"single": _j(B["single"]), "chains": [_j(c) for c in B["chains"]], "wide": [_j(c) for c in B["wide"]]}, behaviours_replayed=nbeh,
